@@ -115,6 +115,12 @@ def pwl_events(tf, tfl, ctx, rng, n):
                                         monotonicity=mono, kernel_initializer="equal_slopes" if slopes else "equal_heights",
                                         impute_missing=impute, missing_input_value=-100.0 if impute else None)
       layer.build((None, units))
+      if j % 3 == 2:
+        # every third layer is re-created from its own configuration (clone_model, a reloaded architecture) and built afresh
+        import tf_keras
+        with tf_keras.utils.custom_object_scope(tfl.premade.get_custom_objects()):
+          layer = type(layer).from_config(layer.get_config())
+        layer.build((None, units))
     except ValueError:
       ctx.extra["rejected_at_construction"] = ctx.extra.get("rejected_at_construction", 0) + 1
       continue
